@@ -707,6 +707,20 @@ def m_retain(it, a, ty, callee):
     return UNIT
 
 
+def m_peekable(it, a, ty, callee):
+    return as_lazy(a[0])
+
+
+def m_peek(it, a, ty, callee):
+    li = as_lazy(it.load(a[0]))
+    _, x = pull(it, li)
+    while x is None and _.pos < len(_.items):
+        _, x = pull(it, _)
+    if x is None:
+        return opt_none()
+    return opt_some(Ptr(Cell('peeked', x)))
+
+
 def m_chain(it, a, ty, callee):
     xs = drain(it, as_lazy(a[0]))
     second = a[1]
@@ -794,6 +808,13 @@ def install(it):
         A(r'<.* as std::iter::Iterator>::%s(::<.*>)?' % k, m_stage(k))
     A(r'<.* as std::iter::Iterator>::rev', m_rev)
     A(r'<.* as std::iter::Iterator>::chain::<.*>', m_chain)
+    A(r'<.* as std::iter::Iterator>::peekable', m_peekable)
+    A(r'std::iter::Peekable::<.*>::peek', m_peek)
+    A(r'smallvec::SmallVec::<.*>::(new|with_capacity)', lambda it, a, ty, c: Seq((), 'vec'))
+    A(r'<smallvec::SmallVec<.*> as std::iter::FromIterator<.*>>::from_iter::<.*>', lambda it, a, ty, c: Seq(drain(it, as_lazy(a[0]) if isinstance(a[0], (IterModel, Adt)) else m_into_iter(it, [a[0]], None, c)), 'vec'))
+    A(r'<smallvec::SmallVec<.*> as std::ops::Deref(Mut)?>::deref(_mut)?', m_vec_deref)
+    A(r'smallvec::SmallVec::<.*>::(len)', lambda it, a, ty, c: usize(len(it.load(a[0]).fields)))
+    A(r'smallvec::SmallVec::<.*>::push', m_vec_push)
     A(r'<.* as std::iter::Iterator>::flat_map::<.*>', m_flat_map)
     A(r'<.* as std::iter::Iterator>::next', m_next)
     A(r'<.* as std::iter::Iterator>::collect::<.*>', m_collect)
